@@ -85,6 +85,10 @@ FIXED = [
     ("index-arr", "Arr[1]", "int", N("IndexExpr", ID, LIT), "ok"),
     ("index-map", 'Mp["k"]', "int", N("IndexExpr", ID, LIT), "ok"),
     ("slice-expr", "Sl[1:2]", "[]int", N("SliceExpr", ID, LIT, LIT), "ok"),
+    # full slice expressions: the capacity is part of the value
+    ("slice3-expr", "Sl[0:1:1]", "[]int", N("SliceExpr", ID, LIT, LIT, LIT), "ok"),
+    ("slice3-arr", "Arr[1:2:2]", "[]int", N("SliceExpr", ID, LIT, LIT, LIT), "ok"),
+    ("slice3-conv", "[]int(Sl[:1:2])", "[]int", "( C t %s %s )" % (N("ArrayType", ID), N("SliceExpr", ID, LIT, LIT)), "ok"),
     ("deref", "*Ptr", "T", N("StarExpr", ID), "ok"),
     ("addr-var", "&Val", "*T", "( U 0 %s )" % ID, "ok"),
     ("addr-field", "&Val.X", "*int", "( U 0 %s )" % N("SelectorExpr", ID, ID), "ok"),
@@ -311,11 +315,15 @@ def run_c13(rep, tier):
             L += ['\t"%s/%s"' % (MOD, p) for p, _ in drivers]
             L += [")", "", "func same(a, b interface{}) bool {", "\tva, vb := reflect.ValueOf(a), reflect.ValueOf(b)",
                   "\tswitch va.Kind() {", "\tcase reflect.Ptr, reflect.Map, reflect.Chan, reflect.Slice, reflect.Func, reflect.UnsafePointer:",
+                  "\t\tif va.Kind() == reflect.Slice && (va.Len() != vb.Len() || va.Cap() != vb.Cap()) { return false }",
                   "\t\tif va.Kind() == reflect.Slice && va.Len() == 0 { return vb.Len() == 0 }",
                   "\t\treturn va.Pointer() == vb.Pointer()", "\t}", "\tif va.Kind() == reflect.Func { return true }",
-                  "\treturn reflect.DeepEqual(a, b)", "}", "", "func main() {", "\tlib.Calls = nil"]
+                  "\treturn reflect.DeepEqual(a, b)", "}", "",
+                  "func capOK(a, b interface{}) bool {", "\tva, vb := reflect.ValueOf(a), reflect.ValueOf(b)",
+                  "\tif va.Kind() == reflect.Slice { return va.Len() == vb.Len() && va.Cap() == vb.Cap() }", "\treturn true", "}", "",
+                  "func main() {", "\tlib.Calls = nil"]
             for p, k in drivers:
-                L.append('\t{ a, b := %s.Init(), %s.Init(); fmt.Println("R %s", same(a, b), same(a, lib.Home%d) || reflect.DeepEqual(a, lib.Home%d)) }' % (p, p, p, k, k))
+                L.append('\t{ a, b := %s.Init(), %s.Init(); fmt.Println("R %s", same(a, b), (same(a, lib.Home%d) || reflect.DeepEqual(a, lib.Home%d)) && capOK(a, lib.Home%d)) }' % (p, p, p, k, k, k))
             L += ['\tfmt.Println("CALLS", lib.Calls)', "}"]
             open(ws.root + "/cmd/drv/main.go", "w").write("\n".join(L) + "\n")
             rc, out, err = run(["go", "run", "./cmd/drv"], cwd=ws.root, env=dict(GOENV), timeout=300)
